@@ -569,7 +569,13 @@ def case_misc(ctx, inp):
     if op == "tri":
         N, M, k, dt = inp["N"], inp["M"], inp["k"], inp.get("dtype", "f8")
         r = da.tri(N, M, k, dtype=dt, chunks=chunks)
-        _same(ctx, "tri", r, np.tri(N, M, k, dtype=dt))
+        if _same(ctx, "tri", r, np.tri(N, M, k, dtype=dt)) and r.size:
+            # function level: every block = (row offset + r >= column offset + c - k)
+            for b, sizes, vals in ctx.lean(Sym("tri"), k, list(r.chunks[0]), list(r.chunks[1])):
+                blk = np.asarray(r.blocks[tuple(b)].compute(scheduler="sync"))
+                if blk.shape != tuple(sizes) or blk.ravel().astype("i8").tolist() != vals:
+                    ctx.disagree("tri: block values", [b, vals], blk.tolist())
+            ctx.branch("grid:tri-blocks-diffed" + (":multi" if r.npartitions > 1 else ""))
         if isinstance(chunks, tuple) and all(isinstance(c, tuple) for c in chunks) and r.chunks != chunks:
             ctx.fail("tri: explicit chunks not honoured", observed=r.chunks, expected=chunks)
     elif op == "indices":
@@ -917,9 +923,11 @@ def _gen_softfloat(ctx):
         yield "softfloat", {"op": op, "x": _hx(x), "y": _hx(y)}
 
 
-def generate(ctx):
+_DENS = [10, 3, 7, 100, 1000, 9, 6, 64]
+
+
+def _gen_arange_int(ctx):
     rng = ctx.rng
-    yield from _gen_eye(ctx)
     # --- arange: integers (function level) -------------------------------------------------------
     for _ in range(ctx.n(380, 6000)):
         a, b = rng.randint(-20, 20), rng.randint(-20, 30)
@@ -927,10 +935,29 @@ def generate(ctx):
         n = max(0, -((a - b) // s)) if s else 0
         yield "arange", {"start": a, "stop": b, "step": s, "chunks": _spec_py(_chunk_spec(rng, n)),
                          "dtype": rng.choice([None, None, "i8", "f8", "i4"])}
+    if ctx.thorough():
+        # every (start, stop, step) in a small box with every chunking of the result (num <= 5); halves as floats too
+        for a in range(-3, 4):
+            for b in range(-3, 5):
+                for st in (1, 2, 3, -1, -2, -3):
+                    n = max(0, -((a - b) // st))
+                    if n > 5:
+                        continue
+                    for c in comps(n):
+                        yield "arange", {"start": a, "stop": b, "step": st, "chunks": [list(c)], "dtype": None}
+                        yield "arange", {"start": [a, 2], "stop": [b, 2], "step": [st, 2], "chunks": [list(c)], "dtype": None}
+        for num in range(0, 6):
+            for c in comps(num):
+                for ep in (True, False):
+                    for a, b in ((0, 1), (-3, 4), (5, -5), (2, 2), ([1, 3], [7, 3])):
+                        yield "linspace", {"start": a, "stop": b, "num": num, "endpoint": ep, "chunks": [list(c)], "dtype": None}
+
+
+def _gen_arange_frac(ctx):
+    rng = ctx.rng
     # --- arange: fractional steps aimed at length-rounding edges -------------------------------------
-    dens = [10, 3, 7, 100, 1000, 9, 6, 64]
     for _ in range(ctx.n(300, 5000)):
-        d = rng.choice(dens)
+        d = rng.choice(_DENS)
         sgn = rng.choice([1, 1, 1, -1])
         sn = rng.randint(1, 9) * sgn
         a = rng.randint(-3 * d, 3 * d)
@@ -946,14 +973,17 @@ def generate(ctx):
         yield "arange", {"start": st, "stop": [b, d], "step": [sn, d],
                          "chunks": rng.choice([1, 2, 3, 4, 5, 7, 11, "auto"]), "dtype": rng.choice([None, None, "f8", "f4"])}
     yield from _gen_arange_float(ctx)
-    yield from _gen_softfloat(ctx)
+
+
+def _gen_linspace(ctx):
+    rng = ctx.rng
     # --- linspace ------------------------------------------------------------------------------------
     for _ in range(ctx.n(240, 4000)):
         num = rng.choice([0, 1, 2, 3, 5, 8, 13, 50]) if rng.random() < 0.7 else rng.randint(0, 60)
         if rng.random() < 0.5:
             a, b = rng.randint(-50, 50), rng.randint(-50, 50)
         else:
-            d = rng.choice(dens)
+            d = rng.choice(_DENS)
             a, b = [rng.randint(-50, 50), d], [rng.randint(-50, 50), d]
         yield "linspace", {"start": a, "stop": b, "num": num, "endpoint": rng.random() < 0.6,
                            "chunks": _spec_py(_chunk_spec(rng, num)), "dtype": rng.choice([None, None, "f4", "i8"])}
@@ -971,6 +1001,10 @@ def generate(ctx):
             b = a + rng.randint(-40, 40) * rng.choice([1, 1, 2 ** max(k - 52, 0)])
         yield "linspace", {"start": a, "stop": b, "num": num, "endpoint": rng.random() < 0.6,
                            "chunks": rng.choice([1, 2, 3, 5, "auto"]), "dtype": rng.choice([None, None, "f4", "i8"])}
+
+
+def _gen_diag(ctx):
+    rng = ctx.rng
     # --- diag / diagonal ---------------------------------------------------------------------------------
     for _ in range(ctx.n(200, 2500)):
         r = rng.random()
@@ -1030,6 +1064,10 @@ def generate(ctx):
         shape = [rng.randint(1, 3) for _ in range(nd)]
         bad = rng.choice([[0, 0], [1, -nd + 1], [0, -nd - 1], [-nd - 2, 1], [0, nd], [nd + 1, 0]])
         yield "diag", {"op": "diagonal", "chunks": [rand_comp(rng, s_) for s_ in shape], "k": rng.randint(-1, 1), "axes": bad}
+
+
+def _gen_grid(ctx):
+    rng = ctx.rng
     # --- index grids: meshgrid / indices / fromfunction, per-block diff against the model --------------------------
     for _ in range(ctx.n(70, 900)):
         op = rng.choice(["meshgrid", "meshgrid", "indices", "fromfunction"])
@@ -1061,6 +1099,10 @@ def generate(ctx):
                                                "indexing": ix, "sparse": sp, "mix": False}
                         yield "misc", {"op": "indices", "dims": [n0, n1], "dtype": "i8", "chunks": [list(c0), list(c1)]}
                         yield "misc", {"op": "fromfunction", "shape": [n0, n1], "dtype": "i8", "chunks": [list(c0), list(c1)]}
+
+
+def _gen_misc(ctx):
+    rng = ctx.rng
     # --- the rest: API level --------------------------------------------------------------------------------
     for _ in range(ctx.n(250, 3000)):
         op = rng.choice(["tri", "indices", "meshgrid", "fromfunction", "ones", "zeros", "full", "empty",
@@ -1102,3 +1144,21 @@ def generate(ctx):
             if op == "full_like":
                 inp["fill"] = rng.choice([3, 1.5, -2])
             yield "misc", inp
+
+
+def generate(ctx):
+    gens = [_gen_eye, _gen_arange_int, _gen_arange_frac, _gen_softfloat, _gen_linspace, _gen_diag, _gen_grid, _gen_misc]
+    if not ctx.thorough():
+        for g in gens:
+            yield from g(ctx)
+        return
+    # thorough: round-robin in slices of 60 cases, so that a deadline cuts every stream at the same relative depth
+    its = [iter(g(ctx)) for g in gens]
+    while its:
+        for it in list(its):
+            for _ in range(60):
+                try:
+                    yield next(it)
+                except StopIteration:
+                    its.remove(it)
+                    break
